@@ -3,6 +3,7 @@ Driver ops of the codec model group: `norm` (decode a document as a kind, encode
 -/
 import SpecModel.Wire
 import SpecModel.Codec.Norm
+import SpecModel.Codec.Gob
 
 namespace SpecModel.CodecOps
 open SpecModel SpecModel.Codec
@@ -15,9 +16,16 @@ def normOp (j : Lean.Json) : Except String String := do
   | .ok r => pure r.render
   | .error e => pure e
 
+/-- `{"op":"gob","kind":K,"doc":<wire JSON: the encoding BEFORE transport>}` ↦ the encoding after transport -/
+def gobOp (j : Lean.Json) : Except String String := do
+  let kind ← Wire.strField j "kind"
+  let doc ← Wire.jsonField j "doc"
+  pure (gobJ kind doc).render
+
 def op (name : String) (j : Lean.Json) : Except String String :=
   match name with
   | "norm" => normOp j
+  | "gob" => gobOp j
   | _ => .error s!"bad-op:unknown {name}"
 
 end SpecModel.CodecOps
